@@ -451,6 +451,10 @@ func (ix *Index) doneBefore(j *JobRec, r int) bool {
 	if len(j.Exits) > 0 && j.Exits[0] < r {
 		return true
 	}
+	if len(j.Enters) > 0 && j.Enters[0] < r {
+		// the worker function is executing at r: no cancel, purge or rejection can excuse the return
+		return false
+	}
 	if j.Accepted != 1 {
 		return true
 	}
@@ -645,27 +649,25 @@ func oC07(ix *Index) []Violation {
 	}
 	// batch stream items carry their own job's outcome
 	for _, g := range ix.Groups {
-		byID := map[string]*JobRec{}
-		for _, n := range g.Items {
-			j := ix.Jobs[n]
-			if len(j.EnterEvs) > 0 {
-				byID[j.EnterEvs[0].S] = j
-			}
-		}
 		for _, it := range g.ItemEvs {
 			if kind != "res" {
 				continue
 			}
-			j := byID[it.S]
+			j := streamJob(ix, g, it)
 			if j == nil {
-				out = append(out, v("C07", "batch-unknown-id", "batch %d delivered a result tagged %q which no executed item carries", g.G, it.S))
+				if !strings.Contains(it.E, "nil pointer") {
+					out = append(out, v("C07", "batch-foreign-result", "batch %d delivered (%d,%q) tagged %q, which is no item's outcome", g.G, it.I, it.E, it.S))
+				}
 				continue
 			}
+			if !expectedIDOK(ix, j, it.S) {
+				out = append(out, v("C07", "batch-wrong-tag", "batch %d: the outcome of item %d (id %q) is tagged %q", g.G, j.N, j.It.ID, it.S))
+			}
 			if j.It.Out == OutVal && (it.E != "" || int(it.I) != valFor(j.N)) {
-				out = append(out, v("C07", "batch-wrong-result", "batch %d result for %q is (%d,%q), want (%d,nil)", g.G, it.S, it.I, it.E, valFor(j.N)))
+				out = append(out, v("C07", "batch-wrong-result", "batch %d result of item %d is (%d,%q), want (%d,nil)", g.G, j.N, it.I, it.E, valFor(j.N)))
 			}
 			if j.It.Out != OutVal && !outcomeErrOK(j.It, kind, it.E) {
-				out = append(out, v("C07", "batch-wrong-result", "batch %d result for %q (outcome %d) is (%d,%q)", g.G, it.S, j.It.Out, it.I, it.E))
+				out = append(out, v("C07", "batch-wrong-result", "batch %d result of item %d (outcome %d) is (%d,%q)", g.G, j.N, j.It.Out, it.I, it.E))
 			}
 		}
 	}
@@ -706,6 +708,34 @@ func oC07(ix *Index) []Violation {
 	return out
 }
 
+// streamJob identifies the batch item a stream element belongs to by its content (the value and
+// the error texts are pure functions of the job number), independently of the tag it carries.
+func streamJob(ix *Index, g *GroupRec, it Ev) *JobRec {
+	n := -1
+	if it.E == "" {
+		if (it.I-1)%7 != 0 {
+			return nil
+		}
+		n = int((it.I - 1) / 7)
+	} else {
+		for _, m := range g.Items {
+			for _, pat := range []string{fmt.Sprintf("E%d-harness", m), fmt.Sprintf("P%d-harness", m), fmt.Sprintf("PE%d-harness", m)} {
+				if strings.Contains(it.E, pat) && (len(it.E) == strings.Index(it.E, pat)+len(pat) || it.E[strings.Index(it.E, pat)+len(pat)] < '0' || it.E[strings.Index(it.E, pat)+len(pat)] > '9') {
+					if strings.Index(it.E, pat) == 0 || it.E[strings.Index(it.E, pat)-1] < '0' || it.E[strings.Index(it.E, pat)-1] > '9' {
+						n = m
+					}
+				}
+			}
+		}
+	}
+	for _, m := range g.Items {
+		if m == n {
+			return ix.Jobs[m]
+		}
+	}
+	return nil
+}
+
 // ---------------------------------------------------------------- C08
 
 func (ix *Index) itemDoneBy(j *JobRec, r int) bool { return ix.doneBefore(j, r) }
@@ -730,28 +760,45 @@ func oC08(ix *Index) []Violation {
 			if len(g.Consume) != 1 {
 				continue // several consumers share the stream: only the union is determined
 			}
-			executed := map[string]*JobRec{}
+			executed := map[int]*JobRec{}
 			for _, m := range g.Items {
 				j := ix.Jobs[m]
 				if len(j.Exits) > 0 {
-					executed[j.EnterEvs[0].S] = j
+					executed[m] = j
 				}
 			}
 			if kind == "res" {
-				seen := map[string]int{}
+				seen := map[int]int{}
 				for _, it := range got {
-					seen[it.S]++
-				}
-				for id, k := range seen {
-					if executed[id] == nil {
-						out = append(out, v("C08", "stream-extra", "batch %d stream delivered a result tagged %q for an item that was not executed", g.G, id))
-					} else if k != 1 {
-						out = append(out, v("C08", "stream-dup", "batch %d stream delivered %d results for item %q", g.G, k, id))
+					j := streamJob(ix, g, it)
+					if j == nil {
+						out = append(out, v("C08", "stream-extra", "batch %d stream delivered (%d,%q) tagged %q, which no item of the batch produces", g.G, it.I, it.E, it.S))
+						continue
+					}
+					seen[j.N]++
+					if len(j.Exits) == 0 {
+						out = append(out, v("C08", "stream-extra", "batch %d stream delivered a result of item %d, which was not executed", g.G, j.N))
+					}
+					if !expectedIDOK(ix, j, it.S) {
+						out = append(out, v("C08", "stream-tag", "batch %d: the result of item %d (id %q) is tagged %q", g.G, j.N, j.It.ID, it.S))
 					}
 				}
-				for id, j := range executed {
-					if seen[id] == 0 && j.Exits[0] < c.Ret {
-						out = append(out, v("C08", "stream-missing", "batch %d stream was closed without a result for executed item %q (job %d)", g.G, id, j.N))
+				tags := map[string]int{}
+				for _, it := range got {
+					tags[it.S]++
+				}
+				for n, k := range seen {
+					if k != 1 {
+						out = append(out, v("C08", "stream-dup", "batch %d stream delivered %d results for item %d", g.G, k, n))
+					}
+				}
+				for _, j := range executed {
+					if seen[j.N] == 0 && j.Exits[0] < c.Ret && j.It.Out != OutPanicNil {
+						out = append(out, v("C08", "stream-missing", "batch %d stream was closed without a result for executed item %d", g.G, j.N))
+					}
+					// generated IDs are per job: two items may not share one
+					if j.It.ID == "" && ix.C.Cfg.IDGen && len(j.EnterEvs) > 0 && tags[j.EnterEvs[0].S] > 1 {
+						out = append(out, v("C08", "stream-tag", "batch %d: %d results carry the generated tag %q", g.G, tags[j.EnterEvs[0].S], j.EnterEvs[0].S))
 					}
 				}
 			}
